@@ -13,6 +13,7 @@ CONSTANTS
   MaxReadFaults = 0
   AllowSoleRecordLoss = FALSE
   AllowIntraSetCollision = FALSE
+  AllowContinueAfterVolatile = TRUE
   RelevantSignersOnly = TRUE
 SPECIFICATION Spec
 VIEW View
